@@ -21,7 +21,8 @@ RULE = ('case = (a directory tree of .lua files: main program + up to 6 packages
         'by the extracted instance predicate; distinct+non-trivial = distinct (graph shape, load-path kind, '
         'feature set, outcome) classes among runs that embed at least one package or fail')
 ASSUMPTIONS = [
-    'file names and package bodies are printable ASCII (P8SCII = UTF-8 there), so the __lua__ section of OUT.p8 is the code',
+    'the __lua__ section of OUT.p8 (UTF-8 of the Unicode rendering) is read back as P8SCII bytes with picotool\'s own '
+    'table (identity on ASCII; the bijection is C15\'s theorem); generated bodies are ASCII plus a few glyph bytes',
     'no symbolic links in the scratch tree; OUT.p8 does not exist before the build',
     'the monitor makes no claim (verdict 100) when the written description does not determine the outcome: a string '
     'that names different files from different requiring files, requests for one package that disagree about '
